@@ -262,12 +262,207 @@ def write_if_changed(path, text):
 def regenerate():
     os.makedirs(GEN, exist_ok=True)
     info = {}
-    for name, fn in (('Dims.v', gen_dims), ('Modes.v', gen_modes), ('Tables.v', gen_tables)):
+    for name, fn in (('Dims.v', gen_dims), ('Modes.v', gen_modes), ('Tables.v', gen_tables), ('Effects.v', gen_effects)):
         text = fn()
         ch = write_if_changed(os.path.join(GEN, name), text)
         info[name] = dict(sha=hashlib.sha256(text.encode()).hexdigest()[:12], rewritten=ch)
     return info
 
+
+
+# ---------------------------------------------------------------- effect / dtype summary (C15, C16)
+ALLOC_CALLS = {'conv2d', 'conv_transpose2d', 'pad', 'cat', 'stack', 'zeros', 'new_zeros', 'zeros_like', 'ones', 'tensor', 'copy', 'array',
+               'repeat', 'avg_pool2d', 'interpolate', 'sqrt', 'outer', 'arange', 'contiguous', 'clone', 'index_select', 'reflect',
+               'atleast_2d', 'where', 'fmod', 'einsum', 'as_column_vector', 'asanyarray', 'flip', 'roll', 'mypad', 'afb1d', 'sfb1d',
+               'afb1d_atrous', 'colfilter', 'rowfilter', 'coldfilt', 'rowdfilt', 'colifilt', 'rowifilt', 'c2q', 'prep_filt', 'float', 'double'}
+VIEW_METHODS = {'view', 'reshape', 'transpose', 'permute', 'squeeze', 'unsqueeze', 'T', 'ravel', 'detach', 'narrow', 'expand', 't'}
+GLOBAL_STATE_CALLS = {'get_default_dtype', 'set_default_dtype', 'is_grad_enabled', 'manual_seed', 'seed', 'rand', 'randn', 'random', 'time', 'getenv'}
+CREATE_CALLS = {'zeros', 'ones', 'tensor', 'empty', 'full', 'arange', 'eye'}
+
+
+def call_name(f):
+    if isinstance(f, ast.Attribute): return f.attr
+    if isinstance(f, ast.Name): return f.id
+    return ''
+
+def base_name(e):
+    """the variable an expression is a view of: x[...], x.view(..), x.attr ... -> ('name', x) ; self.foo -> ('attr', foo)"""
+    while True:
+        if isinstance(e, ast.Subscript): e = e.value
+        elif isinstance(e, ast.Attribute):
+            if isinstance(e.value, ast.Name) and e.value.id in ('self', 'ctx'):
+                return (e.value.id, e.attr)
+            e = e.value
+        elif isinstance(e, ast.Call) and isinstance(e.func, ast.Attribute) and e.func.attr in VIEW_METHODS:
+            e = e.func.value
+        elif isinstance(e, ast.Name):
+            return ('name', e.id)
+        else:
+            return ('expr', None)
+
+
+class EffectVisitor:
+    def __init__(self, fn, file, cls, module_globals):
+        self.fn, self.file, self.cls, self.g = fn, file, cls, module_globals
+        self.prov = {}
+        a = fn.args
+        for p in a.args + a.kwonlyargs + ([a.vararg] if a.vararg else []) + ([a.kwarg] if a.kwarg else []):
+            self.prov[p.arg] = 'param'
+        self.sites = []          # (kind, detail, provenance, line)
+
+    def is_scalar(self, e):
+        """shape entries, lengths, integer arithmetic on them, known integer-valued helpers"""
+        if isinstance(e, ast.Constant): return isinstance(e.value, (int, float, bool, str)) or e.value is None
+        if isinstance(e, ast.Name): return self.prov.get(e.id) == 'scalar'
+        if isinstance(e, ast.Attribute): return e.attr in ('shape', 'ndim', 'J', 'mode', 'o_dim', 'ri_dim')
+        if isinstance(e, ast.Subscript): return self.is_scalar(e.value) or (isinstance(e.value, ast.Attribute) and e.value.attr == 'shape')
+        if isinstance(e, ast.BinOp): return self.is_scalar(e.left) and self.is_scalar(e.right)
+        if isinstance(e, ast.UnaryOp): return self.is_scalar(e.operand)
+        if isinstance(e, ast.IfExp): return self.is_scalar(e.body) and self.is_scalar(e.orelse)
+        if isinstance(e, ast.Tuple): return all(self.is_scalar(v) for v in e.elts)
+        if isinstance(e, ast.Call):
+            return call_name(e.func) in ('len', 'numel', 'int', 'dwt_coeff_len', 'mode_to_int', 'int_to_mode', 'get_dimensions5', 'get_dimensions6', 'range', 'dim', 'size', 'fix')
+        return False
+
+    def prov_of_expr(self, e):
+        if self.is_scalar(e):
+            return 'scalar'
+        if isinstance(e, (ast.BinOp, ast.UnaryOp, ast.Compare, ast.BoolOp, ast.Constant, ast.List, ast.Tuple, ast.ListComp, ast.Dict, ast.JoinedStr)):
+            return 'fresh'
+        if isinstance(e, ast.Call):
+            n = call_name(e.func)
+            if isinstance(e.func, ast.Attribute) and n in VIEW_METHODS:
+                return self.prov_of_expr(e.func.value)
+            if n in ALLOC_CALLS or n == 'apply':
+                return 'fresh'
+            return 'unknown'
+        if isinstance(e, ast.IfExp):
+            a, b = self.prov_of_expr(e.body), self.prov_of_expr(e.orelse)
+            return a if a == b else ('param' if 'param' in (a, b) else 'unknown')
+        k, nm = base_name(e)
+        if k == 'name':
+            if nm in self.prov: return self.prov[nm]
+            if nm in self.g: return 'global'
+            return 'unknown'
+        if k == 'self': return 'attr'
+        if k == 'ctx': return 'ctx'
+        return 'unknown'
+
+    def assign(self, target, value):
+        if isinstance(target, ast.Name):
+            self.prov[target.id] = self.prov_of_expr(value)
+        elif isinstance(target, (ast.Tuple, ast.List)):
+            src = self.prov_of_expr(value)
+            if isinstance(value, (ast.Tuple, ast.List)) and len(value.elts) == len(target.elts):
+                for t, v in zip(target.elts, value.elts): self.assign(t, v)
+            else:
+                for t in target.elts:
+                    if isinstance(t, ast.Name): self.prov[t.id] = src
+        elif isinstance(target, ast.Subscript):
+            k, nm = base_name(target)
+            p = self.prov_of_expr(target.value)
+            if k == 'name' and nm in self.g and nm not in self.prov:
+                self.sites.append(('global_write', nm, 'global', target.lineno))
+            else:
+                self.sites.append(('inplace', 'setitem:%s' % (nm or '?'), p, target.lineno))
+        elif isinstance(target, ast.Attribute):
+            k, nm = base_name(target)
+            if k == 'self' and self.fn.name in ('forward', 'backward', '__call__'):
+                self.sites.append(('self_write', nm, 'attr', target.lineno))
+            elif k == 'name' and nm in self.g and nm not in self.prov:
+                self.sites.append(('global_write', nm, 'global', target.lineno))
+
+    def run(self):
+        for node in ast.walk(self.fn):
+            if isinstance(node, ast.Global):
+                for nm in node.names: self.sites.append(('global_write', nm, 'global', node.lineno))
+        self.block(self.fn.body)
+        return self.sites
+
+    def block(self, stmts):
+        for st in stmts:
+            if isinstance(st, (ast.FunctionDef, ast.ClassDef)): continue
+            if isinstance(st, ast.Assign):
+                self.scan_calls(st.value)
+                for t in st.targets: self.assign(t, st.value)
+            elif isinstance(st, ast.AugAssign):
+                self.scan_calls(st.value)
+                p = self.prov_of_expr(st.target)
+                k, nm = base_name(st.target)
+                if isinstance(st.target, ast.Name) and p == 'fresh' and not isinstance(st.target, ast.Subscript):
+                    # x += ... on a fresh tensor: in place on a fresh value, harmless; on scalars rebinding
+                    self.sites.append(('inplace', 'augassign:%s' % nm, p, st.lineno))
+                else:
+                    if k == 'name' and nm in self.g and nm not in self.prov:
+                        self.sites.append(('global_write', nm, 'global', st.lineno))
+                    else:
+                        self.sites.append(('inplace', 'augassign:%s' % (nm or '?'), p, st.lineno))
+            elif isinstance(st, (ast.If, ast.For, ast.While, ast.With, ast.Try)):
+                for f in ('test', 'iter'):
+                    if hasattr(st, f): self.scan_calls(getattr(st, f))
+                if isinstance(st, ast.For): self.assign(st.target, st.iter)
+                for f in ('body', 'orelse', 'finalbody'):
+                    if hasattr(st, f): self.block(getattr(st, f))
+                if isinstance(st, ast.Try):
+                    for h in st.handlers: self.block(h.body)
+            elif isinstance(st, (ast.Expr, ast.Return)):
+                if getattr(st, 'value', None) is not None: self.scan_calls(st.value)
+            elif isinstance(st, ast.Delete):
+                pass
+
+    def scan_calls(self, e):
+        for node in ast.walk(e):
+            if not isinstance(node, ast.Call): continue
+            n = call_name(node.func)
+            if isinstance(node.func, ast.Attribute) and n.endswith('_') and not n.startswith('__') and n not in ('requires_grad_',):
+                self.sites.append(('inplace', 'method:%s' % n, self.prov_of_expr(node.func.value), node.lineno))
+            if any(k.arg == 'out' for k in node.keywords):
+                self.sites.append(('inplace', 'out=', 'unknown', node.lineno))
+            if n in GLOBAL_STATE_CALLS:
+                self.sites.append(('global_read', n, 'global', node.lineno))
+            if n in CREATE_CALLS and isinstance(node.func, ast.Attribute) and isinstance(node.func.value, ast.Name) and node.func.value.id == 'torch':
+                has_dtype = any(k.arg == 'dtype' for k in node.keywords)
+                self.sites.append(('create', n, 'dtype' if has_dtype else 'default_dtype', node.lineno))
+            if n in ('float', 'double', 'half') and isinstance(node.func, ast.Attribute) and not node.args:
+                self.sites.append(('cast', n, 'fixed', node.lineno))
+
+
+def effects_of_package():
+    root = os.path.join(REPO, 'pytorch_wavelets')
+    recs = []
+    for dp, _, files in sorted(os.walk(root)):
+        for fn in sorted(files):
+            if not fn.endswith('.py'): continue
+            path = os.path.join(dp, fn)
+            rel = os.path.relpath(path, root)
+            tree = ast.parse(open(path).read(), path)
+            mg = set()
+            for n in tree.body:
+                if isinstance(n, ast.Assign):
+                    for t in n.targets:
+                        if isinstance(t, ast.Name): mg.add(t.id)
+            def visit(body, cls):
+                for n in body:
+                    if isinstance(n, ast.ClassDef): visit(n.body, n.name)
+                    elif isinstance(n, ast.FunctionDef):
+                        for dec in n.decorator_list:
+                            dn = call_name(dec.func) if isinstance(dec, ast.Call) else call_name(dec)
+                            recs.append((rel, (cls + '.' if cls else '') + n.name, 'decorator', dn, 'decorator', n.lineno))
+                        for (kind, detail, prov, line) in EffectVisitor(n, rel, cls, mg).run():
+                            recs.append((rel, (cls + '.' if cls else '') + n.name, kind, detail, prov, line))
+                        visit(n.body, cls)
+            visit(tree.body, '')
+    return recs
+
+
+def gen_effects():
+    recs = effects_of_package()
+    out = HEADER % 'every function and method of pytorch_wavelets (effect / dtype summary)'
+    out += '(* (file, function, kind, detail, provenance of the target / dtype handling) ; line numbers are left out so that moving code does not change the obligation *)\n'
+    out += 'Definition effects : list (string * string * string * string * string) := [\n  '
+    out += ';\n  '.join('("%s", "%s", "%s", "%s", "%s")%%string' % (f, fn, k, d.replace('"', ''), p) for (f, fn, k, d, p, _) in recs)
+    out += '].\n'
+    return out
 
 if __name__ == '__main__':
     print(regenerate())
